@@ -302,6 +302,9 @@ class Interp:
         if lo is not None: cs.append(v >= lo if signed else z3.UGE(v, lo))
         if hi is not None: cs.append(v <= hi if signed else z3.ULE(v, hi))
         if cs: self.ctx.assume(z3.And(*cs))
+        if lo is None or hi is None or hi - lo + 1 > 24:
+            if not hasattr(self, 'wide_ints'): self.wide_ints = set()
+            self.wide_ints.add(name)        # int_to_chars does not try to enumerate these
         self.ctx.inputs.append((name, v, 'int%s%d' % ('s' if signed else 'u', bits)))
         return v
     def sym_bool(self, name):
